@@ -168,6 +168,10 @@ class SquashHarness(Harness):
                 out.append({'node': c['node'], 'children': sub})
         return out
 
+    def on_panic(self, ctx, ex, e, res):
+        ctx.violations.append({'law': 'C17.terminates', 'model': ctx.model(),
+                               'info': {'msg': res['detail'], 'where': res.get('where'), 'input': getattr(ctx, 'input_desc', None), 'panic': True}})
+
     def tv_pick(self, trace):
         import zlib
         return zlib.crc32(repr(trace).encode()) % self.tv_every == self.tv_phase
